@@ -1,0 +1,21 @@
+//go:build verif
+
+package pkcs12
+
+// Contracts checked by /verif/gvc (s-expression syntax, see /verif/DESIGN.md).
+// This file contains comments only.
+
+// Integrity gate of a PFX (C17): verifyMac accepts only after crypto/hmac.Equal returned true on the stored digest and the
+// MAC it computed; getSafeContents hands out bags only after such an accepted comparison happened during the call.
+// (trusted frame: pbkdf calls the hash through a function value; that it writes only memory it allocates is assumed)
+//@ (func pbkdf trusted)
+//@ (func verifyMac sweep split-returns
+//@   (modifies)
+//@   (requires nn (not (isnil macData)))
+//@   (ghost-havoc hmac.last hmac.eqs hmac.a hmac.b)
+//@   (ensures gated (=> (isnil result) (and (= (ghost hmac.last) #x01) (bvugt (ghost hmac.eqs) (old (ghost hmac.eqs)))
+//@                                         (= (ghost hmac.a) (obj (field macData Mac Digest))))))
+//@   (ensures-internal computed (=> (isnil result) (= (ghost hmac.b) (obj expectedMAC)))))
+//@ (func getSafeContents sweep split-returns
+//@   (ghost-havoc hmac.last hmac.eqs hmac.a hmac.b)
+//@   (ensures gated (=> (isnil err) (bvugt (ghost hmac.eqs) (old (ghost hmac.eqs))))))
